@@ -24,7 +24,8 @@ RULE = (
     "{{ var }} is a numbered probe [pN:value]; `only` on/off; both context_behavior values. Oracle (a): page text and per-probe value sequences equal the "
     "reference interpreter, which implements the scoping rules of the property statement (values whose winner the statement leaves open are wildcards); "
     "(b) isolated mode: two renders whose page contexts differ only in `u` give identical output; (c) Context.dicts, render_context depth and "
-    "Context.template of the caller are unchanged after Template.render. "
+    "Context.template of the caller are unchanged after Template.render; (d) a third of the programs is rendered again with every component tag "
+    "written as the dynamic component and must match the same prediction. "
     "Non-trivial = at least one probe whose value differs between django and isolated mode (model), or between the two runs' inputs in django mode; "
     "distinct by (program, mode)."
 )
@@ -77,6 +78,17 @@ def check_program(case, col=None):
             fails.append(("[%s] scoping differs; probes: %s\n expected: %r\n real:     %r" % (mode, "; ".join(diffs[:6]) or "(structure)", exp[:500], real[:500]), "c03-scope-" + mode))
         if res.ctx_unchanged is False:
             fails.append(("[%s] caller's Context changed by render: %s" % (mode, (res.ctx_diff or "")[:600]), "c03-context-mutated"))
+        # (d) the same program with every component tag written as {% component "dynamic" is="cX" %}: same scoping
+        if case.get("dynamic") and not fails:
+            resd = pgrun.run_real(prog, mode, {"dynamic": "name"}, budget=40 * len(it.instances) + 100)
+            if resd.exc is not None:
+                fails.append(("[%s] dynamic-component variant raised %r" % (mode, resd.exc), "c03-dynamic-exc:" + exc_bucket(resd.exc)))
+            else:
+                reald = pg.normalize_real(resd.out)
+                if not pg.matches(exp, reald):
+                    fails.append(("[%s] dynamic-component variant: scoping differs\n expected: %r\n tag form: %r\n dynamic:  %r" % (mode, exp[:500], real[:500], reald[:500]), "c03-dynamic-scope-" + mode))
+            if col is not None:
+                col.count("variant:dynamic")
         # (b) non-interference: perturb the page variable `u`
         prog2 = {"comps": prog["comps"], "page": {"ctx": dict(prog["page"]["ctx"], u="PERTURBED"), "tpl": prog["page"]["tpl"]}}
         res2 = pgrun.run_real(prog2, mode, budget=20 * len(it.instances) + 50)
@@ -109,7 +121,7 @@ def plan(tier, seed, scale=1.0):
 
 def run_shard(spec):
     col = Collector()
-    strat = st.builds(lambda p: {"kind": "main", "program": p}, pgstrat.programs(CFG))
+    strat = st.builds(lambda p, d: {"kind": "main", "program": p, "dynamic": d < 34}, pgstrat.programs(CFG), st.integers(0, 99))
     return hyp_search(strat, lambda case: check_program(case, col), col, max_examples=spec["n"], seed=spec["seed"], shrink=False, attribute=attribute, post_min=lambda c, still: pgmin.minimize(c, still, 400))
 
 
